@@ -306,11 +306,13 @@ def init (forward : Bool) (strategy : Strategy) (com : Composition) (cursor : Na
   else
     initLoop env { s0 with end_ := min (cursor + 1) com.len, begin_ := s0.afterPreviousBreakPoint cursor } d (com.len + 2)
 
-/-- `PhraseSelector::new` + `init_single_word(cursor)` -/
+/-- `PhraseSelector::new` + `init_single_word(cursor)`: `orig` is the position of the word (the symbol
+    before the cursor), as `init` records it (before the F41 fix it was the cursor after the word, and
+    `jump_to_first_selection_point` extended the range over the following symbol) -/
 def initSingleWord (strategy : Strategy) (com : Composition) (cursor : Nat) : Outcome PhraseSel :=
   let e := min cursor com.len
   if e == 0 then .panic "phrase-sel-single-underflow"
-  else .ok { begin_ := e - 1, end_ := e, forward := false, orig := cursor, strategy, com }
+  else .ok { begin_ := e - 1, end_ := e, forward := false, orig := e - 1, strategy, com }
 
 /-- `next_selection_point` -/
 def nextSelectionPoint (s : PhraseSel) (d : D) : Outcome (Option (Nat × Nat)) :=
